@@ -56,7 +56,7 @@ SHAPE_PROPS = {
     'C09': dict(profiles=['history', 'replica', 'single'], title='history'),
     'C11': dict(profiles=['ordinary', 'burst', 'alloc'], title='memory safety / UB / assertions / allocation', flavours={'quick': ['clang-asan', 'gcc'], 'thorough': ['clang-asan', 'gcc-asan', 'gcc', 'clang-dev', 'gcc-O2']}),
     'C12': dict(profiles=['utility', 'utility-hostile'], title='utility / random selection'),
-    'C16': dict(profiles=['mirror', 'mirror-idle', 'mirror-plans'], title='logger / structure report'),
+    'C16': dict(profiles=['mirror', 'mirror-idle', 'mirror-plans'], title='logger / structure report', flavours={'quick': ['gcc', 'clang', 'clang-vlog'], 'thorough': ['gcc', 'clang', 'clang-vlog', 'gcc17', 'clang-dev']}),
     'C13': dict(profiles=['single', 'mixed'], title='queries'),
     'C14': dict(profiles=['payload'], title='payloads'),
 }
@@ -170,7 +170,9 @@ def shape_engine(prop, tier, seed, keep=False):
     flavours = list(conf.get('flavours', {}).get(tier, T['flavours']))
     joindiff = vlib.join_differs()
     if joindiff and 'clang-dev' not in flavours: flavours.append('clang-dev')
-    shapeset = shp.shape_set(seed, T['n_random'])
+    big = ()
+    if tier == 'thorough': big = {'C08': ('k_serial_big', 'k_wide_nested', 'k_deep_ortho'), 'C11': ('k_serial_big', 'k_deep_ortho')}.get(prop, ('k_wide_nested', 'k_deep_ortho'))
+    shapeset = shp.shape_set(seed, T['n_random'], big=big)
     if prop == 'C16':
         for sj in shapeset[1::2]: shp.add_masks(sj, seed)      # every other shape leaves some methods un-overridden
     if prop == 'C14':
